@@ -180,3 +180,26 @@ func height(n *node) int {
 	}
 	return h
 }
+
+// drawVolatile marks some non-empty regular files as rewritten in place
+// (same length, every byte changed) while they are being uploaded.
+func drawVolatile(rt *rapid.T, n *node) int {
+	marked := 0
+	for _, name := range n.sortedNames() {
+		c := n.children[name]
+		switch {
+		case c.kind == kDir:
+			marked += drawVolatile(rt, c)
+		case c.kind == kFile && len(c.data) > 0:
+			if rapid.IntRange(0, 5).Draw(rt, "rewritten_during_upload") == 0 {
+				b := []byte(c.data)
+				for i := range b {
+					b[i] ^= 0x55
+				}
+				c.volatile, c.alt = true, string(b)
+				marked++
+			}
+		}
+	}
+	return marked
+}
